@@ -452,6 +452,9 @@ func OracleC15() *Oracle {
 		}
 	}
 	return &Oracle{
+		Panic: func(h *Hist, r any) {
+			h.Fail("Parser|panic", "a parser call panicked: %v (ops %s)", r, h.OpsString())
+		},
 		Parse: func(h *Hist, ev *ParseEv) {
 			if ev.Err == nil {
 				probe(h, "Parser.Parse")
